@@ -116,13 +116,7 @@ func checkC20(c *Ctx, r *Report) {
 				n, ok := constInt(ci.Common().Args[1])
 				return ok && n == code && isParamVar(c, ci.Common().Args[0], "a")
 			}
-			for _, ret := range returnsOf(cl) {
-				if _, ok := constBool(retVal(ret, 0)); !ok {
-					if _, isPhi := retVal(ret, 0).(*ssa.Phi); !isPhi {
-						r1.Fail("FilterAddrs$filter: non-constant return", instrPos(ret), "cannot classify the filter's answer", "")
-					}
-				}
-			}
+			// (the answer may be a constant, a flag, or a boolean expression: the table evaluates whatever is returned)
 			// the filter's answer as a function of: public, isUDP, isIPv6, and each counter's answer
 			const (
 				aPublic = iota
